@@ -449,6 +449,7 @@ func (ex *Exec) store(st *State, p *PtrV, v Term, site ssa.Instruction) {
 		return
 	case p.Global != nil:
 		ex.frameWrite(st, site, "global "+p.Global.Name(), tFalse)
+		ex.captureWrite(st, site, "package-level variable "+p.Global.Name())
 		root := ex.globalVal(st, p.Global)
 		st.globals[p.Global.String()] = ex.storePath(root, p.Root, p.Path, v)
 		return
@@ -456,7 +457,7 @@ func (ex *Exec) store(st *State, p *PtrV, v Term, site ssa.Instruction) {
 		es := ex.w.sortOf(p.Root, ex.d)
 		name := "S$" + es
 		h := ex.heap(st, name, arraySort(SInt, arraySort(SInt, es)))
-		ex.frameWrite(st, site, "slice element", ge(slcBase(p.Slc), st.alloc0))
+		ex.frameWrite(st, site, name, ge(slcBase(p.Slc), st.alloc0))
 		arr := sel(h, slcBase(p.Slc), arraySort(SInt, es))
 		idx := eix(slcOff(p.Slc), p.Idx)
 		nv := v
@@ -469,6 +470,7 @@ func (ex *Exec) store(st *State, p *PtrV, v Term, site ssa.Instruction) {
 	fresh := ge(p.Base, st.alloc0)
 	if p.FreeVar {
 		fresh = tFalse
+		ex.captureWrite(st, site, "captured variable")
 	}
 	if ex.w.immutable[structKey(p.Root)] && site != nil {
 		ex.oblige(st, "immut", "", site, fresh, "fields of immutable type "+structKey(p.Root)+" are written only on an object allocated in this activation")
@@ -514,6 +516,16 @@ func (ex *Exec) frameWrite(st *State, site ssa.Instruction, heapName string, fre
 		}
 	}
 	ex.oblige(st, "frame", "", site, fresh, "write to "+heapName+" must target memory allocated in this activation (assigns clause)")
+}
+
+// captureWrite: functions marked nocapture (render-time closures) must not write the
+// variables they captured when the template was compiled, nor package-level variables:
+// those are shared by every render of the template, on every goroutine (C03, C04).
+func (ex *Exec) captureWrite(st *State, site ssa.Instruction, what string) {
+	if ex.con == nil || !ex.con.NoCapture || site == nil {
+		return
+	}
+	ex.oblige(st, "capture", "", site, tFalse, "render-time code writes a "+what+" shared between renders")
 }
 
 func (ex *Exec) globalVal(st *State, g *ssa.Global) Term {
